@@ -545,6 +545,11 @@ func (c *evalCtx) evalCall(e *Expr) EV {
 			return EV{V: scalar(vc.bytesContent(c.st, a.V))}
 		}
 		return EV{V: scalar(c.int(a, e))} // strings and arrays are their own content
+	case "strlen":
+		return EV{V: scalar(p.App("strlen", SInt, c.int(arg(0), e)))}
+	case "u256bytes":
+		// the minimal big-endian byte string of a 256-bit value (what (*uint256.Int).Bytes returns); injective
+		return EV{V: scalar(p.App("u256bytes", SInt, c.int(arg(0), e)))}
 	case "lexrank":
 		// the position of a byte string in the lexicographic order used by bytes.Compare (order embedding;
 		// equal ranks iff equal contents is assumed per compared pair by the bytes.Compare intrinsic)
